@@ -115,6 +115,19 @@ def run(chk):
     for k in ([3, 5] if chk.tier == 'quick' else [3, 5, 8, 12]):
         tcases.append({'id': len(tcases), 'desc': lookahead_chain(k), 'cfg': {},
                        'runs': [['start', T('a' * m), 0] for m in (0, 1, 3, 7)], 'nrules': k + 1})
+    # a nested parse (started from inline Python) in an alternative that is then abandoned
+    nested = ('```\ndef _vn(s):\n    return Word.parse(s)\n```\n'
+              'start = [Word, Nest, "!"] | [Word, Nest, "?"] | [Word, Nest]\n'
+              'Nest = "=" >> (Word |> `lambda s: _vn(s)`)\nWord = /[ab]+/\n')
+    tcases.append({'id': len(tcases), 'desc': nested, 'cfg': {},
+                   'runs': [['start', T(x), 0] for x in ('ab=ba?', 'ab=ba!', 'ab=ba', 'a=b=', 'ab')], 'nrules': 3})
+    # long inputs (memo tables with tens of thousands of entries), validated in projection on the rare rules
+    longg = ('start = [Header, Items, "."] | [Header, Items, ";"] | [Header, Items]\n'
+             'Header = "h:"\nItems = Item*\nItem = "a" | "b"\n')
+    for n in ([20000] if chk.tier == 'quick' else [20000, 70000]):
+        tcases.append({'id': len(tcases), 'desc': longg, 'cfg': {'project': ['_try_Header', '_try_Items']},
+                       'runs': [['start', T('h:' + 'ab' * (n // 2) + ';'), 0], ['start', T('h:' + 'a' * n), 0]],
+                       'nrules': 4})
     nrand = 300 if chk.tier == 'quick' else 4000
     texts = gen.all_texts('ab', 3) + [T('aabab'), T('ababab'), T('bbaab')]
     rcases = []
